@@ -477,12 +477,28 @@ impl Write for FailWriter {
         let k = s.calls;
         s.calls += 1;
         // failat >= 1_000_000 encodes "fail ONLY at call failat - 1_000_000" (later calls are accepted again)
-        let fails = if self.failat >= 1_000_000 {
+        // failat >= 2_000_000 encodes "fail from call failat % 1_000_000 on, with io::ErrorKind number failat / 1_000_000 - 2"
+        let fails = if self.failat >= 2_000_000 {
+            (k as u64) >= ((self.failat % 1_000_000) as u64)
+        } else if self.failat >= 1_000_000 {
             (k as u64) == ((self.failat - 1_000_000) as u64)
         } else {
             self.failat >= 0 && (k as u64) >= (self.failat as u64)
         };
         if fails {
+            if self.failat >= 2_000_000 {
+                let kind = match self.failat / 1_000_000 - 2 {
+                    0 => io::ErrorKind::BrokenPipe,
+                    1 => io::ErrorKind::WriteZero,
+                    2 => io::ErrorKind::UnexpectedEof,
+                    3 => io::ErrorKind::ConnectionReset,
+                    4 => io::ErrorKind::TimedOut,
+                    5 => io::ErrorKind::PermissionDenied,
+                    6 => io::ErrorKind::WouldBlock,
+                    _ => io::ErrorKind::Other,
+                };
+                return Err(io::Error::new(kind, "boom"));
+            }
             return Err(io::Error::other("boom"));
         }
         // failat <= -2 encodes a writer that never fails but accepts at most (-failat - 1) bytes per call
